@@ -10,17 +10,43 @@ from ..gen import netgen
 from ..oracles import iec60909
 
 PROPERTY = "C18"
-READY = False
-NOT_READY_REASON = "under construction"
+READY = True
 TECHNIQUE = ("runtime monitoring: every calc_sc result row checked against the IEC 60909 relations, an independent ohmic "
              "Thevenin model and re-executions with changed sn_mva / inverse_y / faulted-bus subset")
 LEVEL = "exploration"
-CASES = {"quick": 600, "thorough": 16000}
+CASES = {"quick": 1200, "thorough": 30000}
 BUDGET = {"quick": 60, "thorough": 1200}
 CASE_TIMEOUT = 60
-FLOORS = {"quick": {"nontrivial": 250, "max_skip_frac": 0.2}, "thorough": {"nontrivial": 6000, "max_skip_frac": 0.2}}
-RULE = ""
-ASSUMPTIONS = []
+FLOORS = {"quick": {"nontrivial": 600, "max_skip_frac": 0.1,
+                    "tags": {"case:min": 250, "case:max": 250, "fault:2ph": 150, "fault:1ph": 80, "fault_impedance": 150,
+                             "kappa_ref:C": 80, "kappa_ref:radial": 120, "multi_gen_node": 100, "current_sources": 80,
+                             "v:sn_mva": 400, "v:inverse_y": 400, "v:subset": 400, "v:2ph_3ph": 300, "topology:auto": 150, "kappa:B": 150},
+                    "extras": {"ref_rows": 5000, "variant_runs": 1500, "kappa_ref_rows": 600}},
+          "thorough": {"nontrivial": 15000, "max_skip_frac": 0.1,
+                       "tags": {"case:min": 6000, "fault:2ph": 4000, "fault:1ph": 2000, "fault_impedance": 4000, "kappa_ref:C": 2000,
+                                "kappa_ref:radial": 3000, "multi_gen_node": 2500, "current_sources": 2000, "v:sn_mva": 10000,
+                                "v:inverse_y": 10000, "v:subset": 10000, "v:2ph_3ph": 7000},
+                       "extras": {"ref_rows": 120000, "variant_runs": 40000, "kappa_ref_rows": 15000}}}
+RULE = ("one case = one seeded random network (netgen profiles simple/full_mix/weakly_meshed/transmission/dist_radial; lines, 2W/3W "
+        "transformers with off-nominal rated voltages and parallel units, bus-bus and branch switches, out-of-service elements, "
+        "several ext_grids, generators with own rated voltage / xdss / cos_phi / pg_percent incl. several per bus, symmetric "
+        "impedance elements, loads/shunts/storages, sgens as current sources with k >= 0, zero-sequence data) x one option vector "
+        "(case min/max, fault 3ph/2ph/1ph, lv_tol_percent, fault impedance, ip/ith, topology, kappa method); every result row is "
+        "an oracle evaluation; 2-4 re-executions per case (net.sn_mva changed, inverse_y=False, faulted-bus subset, other fault "
+        "type). Non-trivial = at least one row compared with the reference network; distinct = digest of input tables + options")
+ASSUMPTIONS = [
+    "reference network pv/oracles/iec60909.py: ohmic nodal matrix from the element tables and the documented models "
+    "(doc/shortcircuit/*.rst; K_G with Un/UrG as in IEC 60909-0 eq. 18 - the rst has the ratio inverted), dense inverse per case",
+    "relative tolerance 1e-8 for the algebraic relations and the Thevenin impedance (observed agreement 1e-15), 1e-7 between two "
+    "executions (1e-6 for 1ph, rows with a floating zero-sequence network |Z0| > 100 |Z1| not compared)",
+    "rows with current-source contribution (case max, sgen.k > 0) are only checked for ikss >= voltage-source part, skss and the "
+    "invariances; peak factor compared with the closed forms for topology='radial' (R/X of the reported Zk) and method C without "
+    "generators (equivalent frequency on the reference network), otherwise only 1.02 <= kappa <= 2",
+    "out of domain: ward/xward/dcline/motor/z-switches/asymmetric impedances/power-station units (no documented short-circuit model), "
+    "use_pre_fault_voltage, branch results (documented as beta); 1ph only with vector groups Dyn/YNyn/Yzn and YNyd 3W transformers",
+    "unsupplied islands that pandapower does not detect (in-service bus behind an out-of-service bus, dangling trafo3w side) give a "
+    "singular matrix or ikss ~ 1e-15: skipped / not compared (C07 domain), bounded by max_skip_frac",
+]
 
 OVR = dict(ward=0., xward=0., dcline=0., z_sw=0., asym=0., motor=0., imp=0., slack_gen=0., extra_island=0., eg_oos=0.)
 PROFILES = ["simple", "full_mix", "weakly_meshed", "transmission", "dist_radial", "full_mix"]
@@ -87,7 +113,7 @@ def try_sc(net, **kw):
     except np.linalg.LinAlgError as e:
         return "singular", e
     except Exception as e:  # noqa
-        return "exc", e
+        return ("singular" if "singular" in str(e).lower() else "exc"), e
 
 
 def kappa_ref(net, case, tol, zf, method, bus):
@@ -116,6 +142,7 @@ def run_case(seed, tier, case_no):
     base = copy.deepcopy(net)
     st, exc = try_sc(base, **opts)
     if st != "ok":
+        # (singular matrix: unsupplied island that the connectivity check misses, e.g. behind an out-of-service bus - C07 domain)
         return common.case(digest, nontrivial=False, tags=tags, skipped="calc_sc_%s" % type(exc).__name__, sample=sample)
     res = base.res_bus_sc
     viols = []
@@ -146,6 +173,9 @@ def run_case(seed, tier, case_no):
 
     for b, r in rows.iterrows():
         extra["rows"] += 1
+        if b not in ref and not r.ikss_ka > 1e-9:
+            tags.add("dead_island_row")      # ikss ~ 0 instead of NaN in an unsupplied island (C07 domain), not judged here
+            continue
         c = iec60909.c_factor(float(un.at[b]), case, tol)
         zk = complex(r.rk_ohm, r.xk_ohm)
         div = np.sqrt(3) if fault != "2ph" else 2.
@@ -174,10 +204,8 @@ def run_case(seed, tier, case_no):
             else:
                 note("Thevenin impedance rk+jxk differs from the reference network", err, b, zk=[zk.real, zk.imag],
                      expected=[zr.real, zr.imag])
-        elif r.ikss_ka > 1e-9:
-            note("short-circuit current at a bus that is not supplied by any voltage source", np.inf, b, ikss_ka=r.ikss_ka)
         else:
-            tags.add("dead_island_row")      # ikss ~ 0 instead of NaN in an unsupplied island (C07 domain), not judged here
+            note("short-circuit current at a bus that is not supplied by any voltage source", np.inf, b, ikss_ka=r.ikss_ka)
         if not current_sources and "ip_ka" in rows.columns and np.isfinite(r.ip_ka):
             kappa = r.ip_ka / (np.sqrt(2) * r.ikss_ka)
             if not (1.02 - 1e-9 <= kappa <= 2.0 + 1e-9):
@@ -216,6 +244,11 @@ def run_case(seed, tier, case_no):
         if list(a.index) != list(o.index) or list(a.columns) != list(o.columns):
             viols.append(common.viol("res_bus_sc has different rows/columns with %s" % name, **wit))
             return
+        if not len(a):
+            return
+        if dead_island:       # rows of unsupplied islands carry numerical garbage (ikss ~ 1e-15): not compared
+            keep = [b_ in ref for b_ in a.index]
+            a, o = a[keep], o[keep]
         av, ov = a.values.astype(float), o.values.astype(float)
         rtol = 1e-7
         if fault == "1ph":
@@ -269,42 +302,46 @@ def run_case(seed, tier, case_no):
     variants = list(g.rng.permutation(["sn_mva", "inverse_y", "subset", "other_fault"])[:g.I(2, 4)])
     if ((opts["kappa_method"] == "B" and opts["topology"] == "auto") or fault == "1ph") and "sn_mva" not in variants:
         variants.append("sn_mva")
+    def rerun(n2, what, **kw):
+        """True if the variant ran; failures are violations unless the (almost) singular matrix of a dead island explains them"""
+        st2, e2 = try_sc(n2, **kw)
+        if st2 == "ok":
+            return True
+        if st2 == "singular" and dead_island:
+            tags.add("dead_island_singular")
+            return False
+        viols.append(common.viol("calc_sc fails %s: %s: %s" % (what, type(e2).__name__, e2), **wit))
+        return False
+
     for v in variants:
         n2 = copy.deepcopy(net)
         if v == "sn_mva":
             n2.sn_mva = float(net.sn_mva) * g.C([0.01, 0.1, 10., 3.7, 100.])
             tags.add("v:sn_mva")
-            if try_sc(n2, **opts)[0] == "ok":
+            if rerun(n2, "after changing net.sn_mva", **opts):
                 compare("net.sn_mva = %g instead of %g" % (n2.sn_mva, net.sn_mva), n2)
-            else:
-                viols.append(common.viol("calc_sc fails after changing net.sn_mva", **wit))
         elif v == "inverse_y":
             tags.add("v:inverse_y")
-            if try_sc(n2, inverse_y=False, **opts)[0] == "ok":
+            if rerun(n2, "with inverse_y=False", inverse_y=False, **opts):
                 compare("inverse_y=False", n2)
-            else:
-                viols.append(common.viol("calc_sc fails with inverse_y=False", **wit))
         elif v == "subset":
             tags.add("v:subset")
             k = g.I(1, max(1, len(net.bus) // 2))
             buses = sorted(int(b) for b in g.rng.choice(net.bus.index.values, size=k, replace=False))
             arg = buses[0] if (k == 1 and g.B(0.5)) else buses
-            if try_sc(n2, bus=arg, inverse_y=g.B(0.7), **opts)[0] == "ok":
+            if rerun(n2, "for bus=%s" % (arg,), bus=arg, inverse_y=g.B(0.7), **opts):
                 compare("bus=%s" % (arg,), n2, buses)
-            else:
-                viols.append(common.viol("calc_sc fails for bus=%s" % (arg,), **wit))
         elif v == "other_fault" and not current_sources and fault != "1ph":
             tags.add("v:2ph_3ph")
             o2 = dict(opts, fault="2ph" if fault == "3ph" else "3ph")
-            if try_sc(n2, **o2)[0] == "ok":
+            if rerun(n2, "for fault=%s" % o2["fault"], **o2):
                 extra["variant_runs"] += 1
                 a, o = res.ikss_ka, n2.res_bus_sc.ikss_ka
-                ratio = (a / o) if fault == "2ph" else (o / a)
+                ok_rows = (a > 1e-9) & (o > 1e-9)
+                ratio = ((a / o) if fault == "2ph" else (o / a))[ok_rows]
                 err = np.abs(ratio.dropna() - np.sqrt(3) / 2)
                 if len(err) and err.max() > 1e-8:
                     viols.append(common.viol("ikss(2ph)/ikss(3ph) = %.9f at bus %s, not sqrt(3)/2" % (
                         ratio.loc[err.idxmax()], err.idxmax()), **wit))
-            else:
-                viols.append(common.viol("calc_sc fails for fault=%s" % o2["fault"], **wit))
     return common.case(digest, nontrivial=extra["ref_rows"] > 0, tags=tags, violations=viols, sample=sample, extra=extra,
                        evals=extra["rows"] + extra["variant_runs"])
